@@ -80,10 +80,13 @@ class TeeIO:
 
 
 def pipe_ios(em_a, em_b):
+    """File objects as the real popen transport has them: the initiator holds the
+    buffered binary files subprocess.Popen creates for PIPEs, the worker holds what
+    init_popen_io builds (execmodel.fdopen(fd, 'r'/'w', 1), used through .buffer)."""
     r1, w1 = os.pipe()  # a -> b
     r2, w2 = os.pipe()  # b -> a
-    io_a = PipeIO(os.fdopen(w1, "wb", 0), os.fdopen(r2, "rb", 0), em_a)
-    io_b = PipeIO(os.fdopen(w2, "wb", 0), os.fdopen(r1, "rb", 0), em_b)
+    io_a = PipeIO(open(w1, "wb", -1), open(r2, "rb", -1), em_a)
+    io_b = PipeIO(em_b.fdopen(w2, "w", 1), em_b.fdopen(r1, "r", 1), em_b)
     return io_a, io_b
 
 
@@ -237,10 +240,14 @@ class ScriptedPeer:
     def __init__(self, tee: bool = True, em=None, transport: str = "pipe"):
         em = em or gb.get_execmodel("thread")
         if transport == "pipe":
-            io_a, io_b = pipe_ios(em, em)
-            self._send_raw = io_b.outfile.write
-            self._recv_raw = io_b.infile.read
-            self._closers = [io_b.outfile.close, io_b.infile.close]
+            r1, w1 = os.pipe()  # gateway -> harness
+            r2, w2 = os.pipe()  # harness -> gateway
+            io_a = PipeIO(open(w1, "wb", -1), open(r2, "rb", -1), em)
+            self.peer_w = open(w2, "wb", 0)
+            self.peer_r = open(r1, "rb", 0)
+            self._send_raw = self._write_all
+            self._recv_raw = self.peer_r.read
+            self._closers = [self.peer_w.close, self.peer_r.close]
         else:
             c, s = tcp_socks()
             io_a = SocketIO(c, em)
@@ -252,8 +259,18 @@ class ScriptedPeer:
         self.io_a = TeeIO(io_a) if tee else io_a
         self.gw = execnet.Gateway(self.io_a, execnet.XSpec("popen//id=scripted"))
 
+    def _write_all(self, data: bytes) -> None:
+        mv = memoryview(data)
+        while len(mv):
+            n = self.peer_w.write(mv)
+            mv = mv[n:]
+
     def feed(self, data: bytes) -> None:
         self._send_raw(data)
+
+    def recv(self, n: int = 65536) -> bytes:
+        """raw bytes the gateway wrote (b'' at EOF)"""
+        return self._recv_raw(n)
 
     def close_peer(self) -> None:
         for c in self._closers:
@@ -265,3 +282,62 @@ class ScriptedPeer:
     def shutdown(self, timeout: float = 5.0) -> None:
         self.close_peer()
         self.gw.join(timeout)
+
+
+class ScriptedInitiator:
+    """A real WorkerGateway (serving in a thread) whose initiator is the harness."""
+
+    def __init__(self, backend: str = "thread", em=None):
+        em = em or gb.get_execmodel(backend)
+        r1, w1 = os.pipe()  # harness -> worker
+        r2, w2 = os.pipe()  # worker -> harness
+        self.io_b = PipeIO(em.fdopen(w2, "w", 1), em.fdopen(r1, "r", 1), em)
+        self.peer_w = open(w1, "wb", 0)
+        self.peer_r = open(r2, "rb", 0)
+        self.worker = gb.WorkerGateway(io=self.io_b, id="scripted-worker", _startcount=2)
+        self.done = threading.Event()
+        self.exc = None
+        self.thread = threading.Thread(target=self._serve, daemon=True, name="scripted-worker-main")
+        self.thread.start()
+
+    def _serve(self):
+        try:
+            self.worker.serve()
+        except BaseException as e:  # noqa
+            self.exc = e
+        finally:
+            self.done.set()
+
+    def feed(self, data: bytes) -> None:
+        mv = memoryview(data)
+        while len(mv):
+            n = self.peer_w.write(mv)
+            mv = mv[n:]
+
+    def read_exact(self, n: int) -> bytes:
+        buf = b""
+        while len(buf) < n:
+            d = self.peer_r.read(n - len(buf))
+            if not d:
+                raise EOFError(f"worker closed the stream after {len(buf)}/{n} bytes")
+            buf += d
+        return buf
+
+    def read_frame(self):
+        import struct
+
+        code, ch, ln = struct.unpack("!bii", self.read_exact(9))
+        return code, ch, self.read_exact(ln)
+
+    def close(self, timeout: float = 5.0) -> bool:
+        for f in (self.peer_w,):
+            try:
+                f.close()
+            except OSError:
+                pass
+        ok = self.done.wait(timeout)
+        try:
+            self.peer_r.close()
+        except OSError:
+            pass
+        return ok
